@@ -82,6 +82,17 @@ Theorem C08_store_monotone :
 Proof. exact store_monotone_lemma. Qed.
 Print Assumptions C08_store_monotone.
 
+(* With a key function that is injective on the URLs in play, the store of a job holds for every URL
+   exactly the strongest type it has been checked as (and nothing for a URL never checked). *)
+Theorem C08_store_exact :
+  forall (hash : N -> N) (U : N -> Prop),
+  (forall u v, U u -> U v -> hash u = hash v -> u = v) ->
+  forall (h : list op) (u : N),
+  U u -> (forall u' ty, In (u', ty) (flat_map op_work h) -> U u') ->
+  lookup (hash u) (run hash [] h) = strongest u (flat_map op_work h).
+Proof. exact store_exact_lemma. Qed.
+Print Assumptions C08_store_exact.
+
 (* Within one seed's tree, after preprocess (local store), no URL is held by two non-seed nodes - so
    no URL is fetched by two different non-seed nodes, in this pass or across passes (the nodes
    fetched earlier are still in the tree).  Inv0 is the state in which preprocess finds the tree
